@@ -36,7 +36,8 @@ def history(rng, res, kinds_pool, crash_ok):
             elif a < 0.65:
                 m.delete(rng.choice(list(m.tables))); desc.append("delete")
             elif a < 0.85:
-                c = m.txn_block(rng.choice(list(m.tables)), rng.randrange(1, 6), rng.random() < 0.4)
+                multi = len(m.tables) > 1 and rng.random() < 0.5
+                c = m.txn_block(list(m.tables) if multi else rng.choice(list(m.tables)), rng.randrange(2 if multi else 1, 7), rng.random() < (0.7 if multi else 0.4))
                 desc.append("txn(%s)" % ("commit" if c else "abort"))
             else:
                 clean = rng.random() < 0.5 or not crash_ok
